@@ -178,7 +178,9 @@ BORROWED = {'C02': {('C08', 'dup-flag'), ('C08', 'first-dup'), ('C12', 'resume-d
             # C04: "... onDisconnection ... after pending requests have been failed or preserved as the session mode demands"
             'C04': {('C11', 'not-failed'), ('C12', 'publish-failed-on-loss'), ('C13', 'timer-of-lost-connection')},
             # C16: "Pending requests are afterwards settled by the ordinary connection-loss handling, so none is left hanging"
-            'C16': {('C07', 'orphan'), ('C11', 'not-failed')}}
+            'C16': {('C07', 'orphan'), ('C11', 'not-failed')},
+            # C15: "No keepalive activity outlives its connection."
+            'C15': {('C13', 'keepalive-after-lost')}}
 
 
 def judge(prop, lines):
@@ -212,14 +214,15 @@ def run_scenarios(prop, ctx, scenarios, res, compare_model=True, label='walk'):
                 continue
             seen.add(v.sig)
             cut = lines[:v.step + 1] if v.step >= 0 else lines
-            if len(res.violations) < 40:
+            # at most eight witnesses per signature (so that the many instances of a known finding do not crowd out a new kind of violation)
+            if sum(1 for x in res.violations if x.get('signature') == v.sig) < 8 and len(res.violations) < 200:
                 def pred(ls, sig=v.sig):
                     try:
                         return any(x.sig == sig for x in judge(prop, ls)[0])
                     except Exception:
                         return False
-                small = shrink(cut, pred) if len(res.violations) < 6 and not ctx.get('noshrink') else cut
-                res.violations.append(dict(signature=v.sig, what='%s (%s %s, step %d)' % (v.msg, label, name, v.step), scenario=small, original_length=len(lines)))
+                small = shrink(cut, pred) if sum(1 for x in res.violations if x.get('shrunk')) < 6 and not any(x.get('signature') == v.sig for x in res.violations) and not ctx.get('noshrink') else cut
+                res.violations.append(dict(signature=v.sig, what='%s (%s %s, step %d)' % (v.msg, label, name, v.step), scenario=small, original_length=len(lines), shrunk=(small is not cut)))
     if compare_model and ctx['model_ok'] and scenarios:
         models = corr.run_model([it[1] for it in scenarios])
         ndiv = 0
@@ -1111,6 +1114,14 @@ def strict_decode_writes(ctx, res, prop):
 def c18(ctx):
     res = _c18(ctx)
     if not ctx.get('replay'):
+        # the public ping() is not an operation of the model: real code only, judged by the stream monitor -- before connect(), during the
+        # handshake, while connected (with and without keepalive) and after the loss report
+        scen = []
+        for prof in (1, 2, 3):
+            for ka in (0, 5):
+                scen.append(('manual-ping-%d-%d' % (prof, ka), ['factory %d' % prof, 'build a0', 'sethandlers 0 7', 'ping 0', 'connect 0 %s %d 311 1' % (s_tok('c'), ka), 'ping 0',
+                                                                'recv 0 20020000'] + (['ping 0', 'recv 0 d000'] if ka else []) + ['lost 0 lostc', 'ping 0', 'fire 0', 'fire 1', 'fire 2', 'ping 0']))
+        run_scenarios('C18', dict(ctx, noshrink=True), scen, res, compare_model=False, label='manual ping() (python-only oracle)')
         strict_decode_writes(ctx, res, 'C18')
     reentry_check(ctx, res, 'C18')
     return res
